@@ -28,8 +28,10 @@ def parseRec : List String → Option Rec
       pure { base with tag := ← nat? a, alg := ← nat? b, algSupp := c == "1" }
     else if ty == tDS then
       pure { base with tag := ← nat? a, alg := ← nat? b, algSupp := c == "1", digSupp := d == "1" }
-    else if ty == tNSEC || ty == tNSEC3 then
+    else if ty == tNSEC then
       pure { base with tag := ← nat? a }
+    else if ty == tNSEC3 then
+      pure { base with tag := ← nat? a, alg := ← nat? b }
     else pure base
   | _ => none
 
@@ -113,6 +115,7 @@ def splitBar (ts : List String) : List (List String) :=
 def handle (toks : List String) : Option String := do
   match splitBar toks with
   | ("runx" :: _) :: _ => pure "~"  -- no model side: the implementation run without cache was abandoned
+  | ("runp" :: _) :: _ => pure "~"  -- no model side: verify_nsec / verify_nsec3 (a parameter of the model) panicked
   | ["covers" :: _, [zk, hash, digest]] =>
     let h : Option Bytes := if hash == "x" then none else parseHex hash
     pure (showBool (dsCovers (zk == "1") h ((parseHex digest).getD [])))
